@@ -47,6 +47,7 @@ def mkStore (k c o : String) : Option Store :=
 def parseRdr : Nat → List String → Option (Rdr × List String)
   | 0, _ => none
   | _ + 1, "slice" :: h :: rest => (parseHex h).map fun bs => (Rdr.slice bs, rest)
+  | _ + 1, "file" :: h :: rest => (parseHex h).map fun bs => (Rdr.file bs, rest)
   | _ + 1, "rep" :: b :: rest => (parseByte b).map fun b => (Rdr.rep b, rest)
   | _ + 1, "empty" :: rest => some (Rdr.empty, rest)
   | _ + 1, "liar" :: c :: b :: rest =>
